@@ -134,4 +134,61 @@ theorem flush_bits (b : Bitfield) (f : File) (hf : f.size % Spec.pageBytes = 0)
         exact File.getD_of_le _ _ (by simp only [File.size] at h1; omega)
       simp [h1, hz]
 
+/-! ### dirty pages -/
+
+theorem rangeDiffers_true (bits : Array Bool) (v : Bool) : ∀ (n start i : Nat), start ≤ i → i < start + n →
+    bits.getD i false ≠ v → Bitfield.rangeDiffers bits v start n = true := by
+  intro n
+  induction n with
+  | zero => intro start i h1 h2; omega
+  | succ n ih =>
+    intro start i h1 h2 hne
+    simp only [Bitfield.rangeDiffers, Bool.or_eq_true, bne_iff_ne, ne_eq]
+    by_cases hi : i = start
+    · subst hi; exact Or.inl hne
+    · exact Or.inr (ih (start + 1) i (by omega) (by omega) hne)
+
+theorem setRange_dirty (b : Bitfield) (start len : Nat) (v : Bool) :
+    (∀ p ∈ b.dirty, p ∈ (b.setRange start len v).dirty)
+      ∧ (∀ i, (b.setRange start len v).get i ≠ b.get i → i / Spec.pageBits ∈ (b.setRange start len v).dirty) := by
+  have hdirty : (b.setRange start len v).dirty
+      = b.dirty ++ (Bitfield.changedPages b.bits v start len).filter fun p => !b.dirty.contains p := rfl
+  refine ⟨fun p hp => by rw [hdirty]; exact List.mem_append.mpr (Or.inl hp), fun i hne => ?_⟩
+  rw [Bitfield.get_setRange] at hne
+  have hB : Spec.pageBits = 32768 := rfl
+  by_cases hin : start ≤ i ∧ i < start + len
+  · simp only [hin, and_self, ite_true] at hne
+    have hbit : b.bits.getD i false ≠ v := fun e => hne (by simp only [Bitfield.get]; exact e.symm)
+    have hlen : len ≠ 0 := by omega
+    have hmem : i / Spec.pageBits ∈ Bitfield.changedPages b.bits v start len := by
+      simp only [Bitfield.changedPages, hlen, ite_false]
+      apply List.mem_filterMap.mpr
+      refine ⟨i / Spec.pageBits - start / Spec.pageBits, ?_, ?_⟩
+      · apply List.mem_range.mpr
+        rw [hB]; omega
+      · have hp : start / Spec.pageBits + (i / Spec.pageBits - start / Spec.pageBits) = i / Spec.pageBits := by
+          rw [hB]; omega
+        rw [hp]
+        have hr := rangeDiffers_true b.bits v
+          (min (start + len) ((i / Spec.pageBits + 1) * Spec.pageBits) - max start (i / Spec.pageBits * Spec.pageBits))
+          (max start (i / Spec.pageBits * Spec.pageBits)) i (by rw [hB]; omega) (by rw [hB]; omega) hbit
+        simp only [hr, ite_true]
+    rw [hdirty]
+    by_cases hc : b.dirty.contains (i / Spec.pageBits) = true
+    · exact List.mem_append.mpr (Or.inl (by simpa using hc))
+    · exact List.mem_append.mpr (Or.inr (List.mem_filter.mpr ⟨hmem, by simpa using hc⟩))
+  · simp only [hin, ite_false] at hne
+    exact absurd rfl hne
+
+/-- the dirty invariant survives a range update -/
+theorem dirty_setRange (b : Bitfield) (f : File) (start len : Nat) (v : Bool)
+    (h : ∀ i, b.get i ≠ (Bitfield.ofFile f).get i → i / Spec.pageBits ∈ b.dirty) :
+    ∀ i, (b.setRange start len v).get i ≠ (Bitfield.ofFile f).get i → i / Spec.pageBits ∈ (b.setRange start len v).dirty := by
+  obtain ⟨m1, m2⟩ := setRange_dirty b start len v
+  intro i hne
+  by_cases hsame : (b.setRange start len v).get i = b.get i
+  · exact m1 _ (h i (by rw [← hsame]; exact hne))
+  · exact m2 i hsame
+
+
 end HC.BitfieldPages
